@@ -54,6 +54,60 @@ func deepCopy(v interface{}) interface{} {
 	return v
 }
 
+func viaJSON(v interface{}) interface{} {
+	b, err := json.Marshal(v)
+	if err != nil {
+		return err.Error()
+	}
+	var out interface{}
+	json.Unmarshal(b, &out)
+	return out
+}
+
+// aliasPrefixes walks o and n in parallel; wherever an array of one side is a proper prefix (element-wise equal)
+// of the array at the same place of the other side, the shorter one is replaced by a reslice of the longer one.
+func aliasPrefixes(o, n interface{}) (interface{}, interface{}, bool) {
+	switch ov := o.(type) {
+	case []interface{}:
+		nv, ok := n.([]interface{})
+		if !ok {
+			return o, n, false
+		}
+		short, long := ov, nv
+		if len(nv) < len(ov) {
+			short, long = nv, ov
+		}
+		if len(short) < len(long) && reflect.DeepEqual(short, long[:len(short)]) {
+			if len(nv) < len(ov) {
+				return ov, ov[:len(nv)], true
+			}
+			return nv[:len(ov)], nv, true
+		}
+		changed := false
+		for i := 0; i < len(ov) && i < len(nv); i++ {
+			a, b, c := aliasPrefixes(ov[i], nv[i])
+			ov[i], nv[i] = a, b
+			changed = changed || c
+		}
+		return ov, nv, changed
+	case map[string]interface{}:
+		nv, ok := n.(map[string]interface{})
+		if !ok {
+			return o, n, false
+		}
+		changed := false
+		for k, x := range ov {
+			if y, ok := nv[k]; ok {
+				a, b, c := aliasPrefixes(x, y)
+				ov[k], nv[k] = a, b
+				changed = changed || c
+			}
+		}
+		return ov, nv, changed
+	}
+	return o, n, false
+}
+
 func one(u string, i, j int, ot, nt tj.T) (r rec) {
 	r = rec{U: u, I: i, J: j, JM: tj.T{K: "none"}, GM: tj.T{K: "none"}, D: tj.T{K: "nil"}, JSON: true}
 	defer func() {
@@ -67,6 +121,16 @@ func one(u string, i, j int, ot, nt tj.T) (r rec) {
 	oc, nc := deepCopy(o), deepCopy(n)
 	d := diff.Diff(o, n)
 	r.Mut = !reflect.DeepEqual(o, oc) || !reflect.DeepEqual(n, nc)
+	// Diff is a function of the two VALUES: when one array is a prefix of the other, the same pair is diffed again
+	// with the shorter array being a reslice of the longer one (a list truncated or grown in place shares its
+	// backing array with its predecessor); a delta that differs is the one that gets judged
+	if oa, na, ok := aliasPrefixes(deepCopy(o), deepCopy(n)); ok {
+		da := diff.Diff(oa, na)
+		if !reflect.DeepEqual(viaJSON(d), viaJSON(da)) {
+			d, o, n = da, oa, na
+			r.Err = "aliased arrays"
+		}
+	}
 	if d == nil {
 		return r
 	}
